@@ -58,7 +58,7 @@ def detect(seed, pids=None):
         for p in (pids or [pid]):
             rc, out = sh([PY, os.path.join(HERE, "check"), p, "--repo", d], cwd=HERE, env={**os.environ, "VERIF_NO_EVIDENCE": "1"})
             lines = [l for l in out.splitlines() if "VIOLATION" not in l and l.startswith("src/")]
-            res[p] = {"exit": rc, "first": (lines[0][:300] if lines else out.strip().splitlines()[-1][:300] if out.strip() else "")}
+            res[p] = {"exit": rc, "first": (lines[0][:900] if lines else out.strip().splitlines()[-1][:900] if out.strip() else "")}
         return {"applied": True, "property": pid, "results": res}
     finally:
         shutil.rmtree(d, ignore_errors=True)
